@@ -343,19 +343,17 @@ func BufferSnippet(b []byte) string {
 	return fmt.Sprintf("%q...%q", bStart, bEnd)
 }
 
-func normalizeHeaderValue(ov, ob []byte, headerLength int) (nv, nb []byte, nhl int) {
+func normalizeHeaderValue(ov []byte) (nv []byte) {
 	nv = ov
 	length := len(ov)
 	if length <= 0 {
 		return
 	}
 	write := 0
-	shrunk := 0
 	lineStart := false
 	for read := 0; read < length; read++ {
 		c := ov[read]
 		if c == '\r' || c == '\n' {
-			shrunk++
 			if c == '\n' {
 				lineStart = true
 			}
@@ -369,24 +367,15 @@ func normalizeHeaderValue(ov, ob []byte, headerLength int) (nv, nb []byte, nhl i
 		write++
 	}
 
-	nv = nv[:write]
-	copy(ob[write:], ob[write+shrunk:])
-
-	// Check if we need to skip \r\n or just \n
-	skip := 0
-	if ob[write] == '\r' {
-		if ob[write+1] == '\n' {
-			skip += 2
-		} else {
-			skip++
-		}
-	} else if ob[write] == '\n' {
-		skip++
+	// The value is compacted in place. Pad what is left of it with spaces instead of
+	// moving the rest of the buffer: the bytes behind the value (the remaining headers,
+	// the body, pipelined requests) must keep their position and the buffer its length,
+	// and a parse that is retried once more data has arrived sees a single-line value
+	// whose trailing spaces are trimmed.
+	for i := write; i < length; i++ {
+		ov[i] = ' '
 	}
-
-	nb = ob[write+skip : len(ob)-shrunk]
-	nhl = headerLength - shrunk
-	return
+	return nv[:write]
 }
 
 func stripSpace(b []byte) []byte {
